@@ -243,8 +243,8 @@ class LeaderNode(Entity):
         )
 
         # Apply locally
-        yield from self._store.put(key, value)
         self._versions[key] = versioned
+        yield from self._store.put(key, value)
         self._merkle.update(key, value)
 
         # Replicate to all peers
@@ -318,8 +318,8 @@ class LeaderNode(Entity):
 
         if existing is None:
             # No local version — apply
-            yield from self._store.put(key, value)
             self._versions[key] = incoming
+            yield from self._store.put(key, value)
             self._merkle.update(key, value)
         else:
             # Compare vector clocks
@@ -328,8 +328,8 @@ class LeaderNode(Entity):
 
             if _vc_dominates(incoming_vc, existing_vc):
                 # Incoming is newer — apply
-                yield from self._store.put(key, value)
                 self._versions[key] = incoming
+                yield from self._store.put(key, value)
                 self._merkle.update(key, value)
             elif _vc_dominates(existing_vc, incoming_vc):
                 # Existing is newer — discard
@@ -341,8 +341,8 @@ class LeaderNode(Entity):
                 self._conflicts_resolved += 1
 
                 if winner is not existing:
-                    yield from self._store.put(key, winner.value)
                     self._versions[key] = winner
+                    yield from self._store.put(key, winner.value)
                     self._merkle.update(key, winner.value)
 
         return None
@@ -411,16 +411,16 @@ class LeaderNode(Entity):
             )
             existing = self._versions.get(key)
             if existing is None:
-                yield from self._store.put(key, remote_vv.value)
                 self._versions[key] = remote_vv
+                yield from self._store.put(key, remote_vv.value)
                 self._merkle.update(key, remote_vv.value)
                 self._anti_entropy_keys_repaired += 1
             else:
                 existing_vc = existing.vector_clock or {}
                 remote_vc = remote_vv.vector_clock or {}
                 if _vc_dominates(remote_vc, existing_vc):
-                    yield from self._store.put(key, remote_vv.value)
                     self._versions[key] = remote_vv
+                    yield from self._store.put(key, remote_vv.value)
                     self._merkle.update(key, remote_vv.value)
                     self._anti_entropy_keys_repaired += 1
                 elif not _vc_dominates(existing_vc, remote_vc):
@@ -428,8 +428,8 @@ class LeaderNode(Entity):
                     winner = self._resolver.resolve(key, [existing, remote_vv])
                     self._conflicts_resolved += 1
                     if winner is not existing:
-                        yield from self._store.put(key, winner.value)
                         self._versions[key] = winner
+                        yield from self._store.put(key, winner.value)
                         self._merkle.update(key, winner.value)
                         self._anti_entropy_keys_repaired += 1
 
@@ -485,8 +485,8 @@ class LeaderNode(Entity):
             existing = self._versions.get(key)
             if existing is None:
                 # New key — apply
-                yield from self._store.put(key, remote_vv.value)
                 self._versions[key] = remote_vv
+                yield from self._store.put(key, remote_vv.value)
                 self._merkle.update(key, remote_vv.value)
                 self._anti_entropy_keys_repaired += 1
             else:
@@ -494,8 +494,8 @@ class LeaderNode(Entity):
                 remote_vc = remote_vv.vector_clock or {}
 
                 if _vc_dominates(remote_vc, existing_vc):
-                    yield from self._store.put(key, remote_vv.value)
                     self._versions[key] = remote_vv
+                    yield from self._store.put(key, remote_vv.value)
                     self._merkle.update(key, remote_vv.value)
                     self._anti_entropy_keys_repaired += 1
                 elif not _vc_dominates(existing_vc, remote_vc):
@@ -504,8 +504,8 @@ class LeaderNode(Entity):
                     winner = self._resolver.resolve(key, [existing, remote_vv])
                     self._conflicts_resolved += 1
                     if winner is not existing:
-                        yield from self._store.put(key, winner.value)
                         self._versions[key] = winner
+                        yield from self._store.put(key, winner.value)
                         self._merkle.update(key, winner.value)
                         self._anti_entropy_keys_repaired += 1
 
